@@ -8,72 +8,57 @@ Local Open Scope R_scope.
 
 Theorem C27_rotation_mul A B : is_rotation ROps A -> is_rotation ROps B -> is_rotation ROps (mm A B).
 Proof. exact (rotation_mul A B). Qed.
-Print Assumptions C27_rotation_mul.
 
 Theorem C27_rotation_T A : is_rotation ROps A -> is_rotation ROps (tr33 A).
 Proof. exact (rotation_T A). Qed.
-Print Assumptions C27_rotation_T.
 
 Theorem C27_setX_is_Relem R0 c s : k27_setX ROps R0 c s = Relem ROps 0 c s.
 Proof. exact (setX_is_Relem R0 c s). Qed.
-Print Assumptions C27_setX_is_Relem.
 
 Theorem C27_setY_is_Relem R0 c s : k27_setY ROps R0 c s = Relem ROps 1 c s.
 Proof. exact (setY_is_Relem R0 c s). Qed.
-Print Assumptions C27_setY_is_Relem.
 
 Theorem C27_setZ_is_Relem R0 c s : k27_setZ ROps R0 c s = Relem ROps 2 c s.
 Proof. exact (setZ_is_Relem R0 c s). Qed.
-Print Assumptions C27_setZ_is_Relem.
 
 Theorem C27_Relem_rotation (a:nat) c s : (a < 3)%nat -> s*s + c*c = 1 -> is_rotation ROps (Relem ROps a c s).
 Proof. exact (Relem_rotation a c s). Qed.
-Print Assumptions C27_Relem_rotation.
 
 Theorem C27_Rang_rotation (a:nat) q : (a < 3)%nat -> is_rotation ROps (Rang ROps a q).
 Proof. exact (Rang_rotation a q). Qed.
-Print Assumptions C27_Rang_rotation.
 
 Theorem C27_setFromAngleAboutAxis_is_Rang R0 q (a:nat) : (a < 3)%nat -> setFromAngleAboutAxis ROps R0 q a = Rang ROps a q.
 Proof. exact (setFromAngleAboutAxis_is_Rang R0 q a). Qed.
-Print Assumptions C27_setFromAngleAboutAxis_is_Rang.
 
 Theorem C27_setFromAngleAboutAxis_rotation R0 q (a:nat) : (a < 3)%nat -> is_rotation ROps (setFromAngleAboutAxis ROps R0 q a).
 Proof. exact (setFromAngleAboutAxis_rotation R0 q a). Qed.
-Print Assumptions C27_setFromAngleAboutAxis_rotation.
 
 Theorem C27_two_angles_is_product R0 space a1 (i:nat) a2 (j:nat) : (i < 3)%nat -> (j < 3)%nat ->
   setFromTwoAnglesTwoAxes ROps R0 space a1 i a2 j = seq2 space a1 i a2 j.
 Proof. exact (two_angles_is_product R0 space a1 i a2 j). Qed.
-Print Assumptions C27_two_angles_is_product.
 
 Theorem C27_three_angles_is_product R0 space a1 (i:nat) a2 (j:nat) a3 (k:nat) : (i < 3)%nat -> (j < 3)%nat -> (k < 3)%nat ->
   setFromThreeAnglesThreeAxes ROps R0 space a1 i a2 j a3 k = seq3 space a1 i a2 j a3 k.
 Proof. exact (three_angles_is_product R0 space a1 i a2 j a3 k). Qed.
-Print Assumptions C27_three_angles_is_product.
 
 Theorem C27_two_angles_rotation R0 space a1 (i:nat) a2 (j:nat) : (i < 3)%nat -> (j < 3)%nat ->
   is_rotation ROps (setFromTwoAnglesTwoAxes ROps R0 space a1 i a2 j).
 Proof. exact (two_angles_rotation R0 space a1 i a2 j). Qed.
-Print Assumptions C27_two_angles_rotation.
 
 Theorem C27_three_angles_rotation R0 space a1 (i:nat) a2 (j:nat) a3 (k:nat) : (i < 3)%nat -> (j < 3)%nat -> (k < 3)%nat ->
   is_rotation ROps (setFromThreeAnglesThreeAxes ROps R0 space a1 i a2 j a3 k).
 Proof. exact (three_angles_rotation R0 space a1 i a2 j a3 k). Qed.
-Print Assumptions C27_three_angles_rotation.
 
 Theorem C27_twoBF_is_product R0 c1 s1 (i:nat) c2 s2 (j:nat) : (i < 3)%nat -> (j < 3)%nat -> i <> j ->
   setTwoAngleTwoAxesBF ROps R0 c1 s1 i c2 s2 j =
   if ax_isRev i j then mm (Relem ROps i c1 (-s1)) (Relem ROps j c2 (-s2)) else mm (Relem ROps i c1 s1) (Relem ROps j c2 s2).
 Proof. exact (twoBF_is_product R0 c1 s1 i c2 s2 j). Qed.
-Print Assumptions C27_twoBF_is_product.
 
 Theorem C27_threeBF2_is_product R0 c1 s1 (i:nat) c2 s2 (j:nat) c3 s3 : (i < 3)%nat -> (j < 3)%nat -> i <> j ->
   setThreeAngleTwoAxesBF ROps R0 c1 s1 i c2 s2 j c3 s3 =
   if ax_isRev i j then mm (mm (Relem ROps i c1 (-s1)) (Relem ROps j c2 (-s2))) (Relem ROps i c3 (-s3))
   else mm (mm (Relem ROps i c1 s1) (Relem ROps j c2 s2)) (Relem ROps i c3 s3).
 Proof. exact (threeBF2_is_product R0 c1 s1 i c2 s2 j c3 s3). Qed.
-Print Assumptions C27_threeBF2_is_product.
 
 Theorem C27_threeBF3_is_product R0 c1 s1 (i:nat) c2 s2 (j:nat) c3 s3 (k:nat) : (i < 3)%nat -> (j < 3)%nat -> (k < 3)%nat ->
   i <> j -> j <> k -> i <> k ->
@@ -81,28 +66,45 @@ Theorem C27_threeBF3_is_product R0 c1 s1 (i:nat) c2 s2 (j:nat) c3 s3 (k:nat) : (
   if ax_isRev i j then mm (mm (Relem ROps i c1 (-s1)) (Relem ROps j c2 (-s2))) (Relem ROps k c3 (-s3))
   else mm (mm (Relem ROps i c1 s1) (Relem ROps j c2 s2)) (Relem ROps k c3 s3).
 Proof. exact (threeBF3_is_product R0 c1 s1 i c2 s2 j c3 s3 k). Qed.
-Print Assumptions C27_threeBF3_is_product.
 
 Theorem C27_bodyXYZ_cs_is_product R0 c0 c1 c2 s0 s1 s2 :
   k27_bodyXYZ ROps R0 (c0,c1,c2) (s0,s1,s2) = mm (mm (Relem ROps 0 c0 s0) (Relem ROps 1 c1 s1)) (Relem ROps 2 c2 s2).
 Proof. exact (bodyXYZ_cs_is_product R0 c0 c1 c2 s0 s1 s2). Qed.
-Print Assumptions C27_bodyXYZ_cs_is_product.
 
 Theorem C27_bodyXYZ_cs_rotation R0 c0 c1 c2 s0 s1 s2 : s0*s0+c0*c0 = 1 -> s1*s1+c1*c1 = 1 -> s2*s2+c2*c2 = 1 ->
   is_rotation ROps (k27_bodyXYZ ROps R0 (c0,c1,c2) (s0,s1,s2)).
 Proof. exact (bodyXYZ_cs_rotation R0 c0 c1 c2 s0 s1 s2). Qed.
-Print Assumptions C27_bodyXYZ_cs_rotation.
 
 Theorem C27_bodyXYZ_angles_agree R0 R1 q0 q1 q2 :
   setToBodyFixedXYZ ROps R0 (q0,q1,q2) = k27_bodyXYZ ROps R1 (cos q0, cos q1, cos q2) (sin q0, sin q1, sin q2).
 Proof. exact (bodyXYZ_angles_agree R0 R1 q0 q1 q2). Qed.
-Print Assumptions C27_bodyXYZ_angles_agree.
 
 Theorem C27_bodyXYZ_rotation R0 q0 q1 q2 : is_rotation ROps (setToBodyFixedXYZ ROps R0 (q0,q1,q2)).
 Proof. exact (bodyXYZ_rotation R0 q0 q1 q2). Qed.
-Print Assumptions C27_bodyXYZ_rotation.
 
 Theorem C27_bodyXY_rotation R0 q0 q1 : is_rotation ROps (setToBodyFixedXY ROps R0 (q0,q1)).
 Proof. exact (bodyXY_rotation R0 q0 q1). Qed.
-Print Assumptions C27_bodyXY_rotation.
 
+(** one traversal for the axioms of all theorems of this file (a Print Assumptions per theorem costs seconds each) *)
+Definition C27_all := (@C27_rotation_mul,
+  @C27_rotation_T,
+  @C27_setX_is_Relem,
+  @C27_setY_is_Relem,
+  @C27_setZ_is_Relem,
+  @C27_Relem_rotation,
+  @C27_Rang_rotation,
+  @C27_setFromAngleAboutAxis_is_Rang,
+  @C27_setFromAngleAboutAxis_rotation,
+  @C27_two_angles_is_product,
+  @C27_three_angles_is_product,
+  @C27_two_angles_rotation,
+  @C27_three_angles_rotation,
+  @C27_twoBF_is_product,
+  @C27_threeBF2_is_product,
+  @C27_threeBF3_is_product,
+  @C27_bodyXYZ_cs_is_product,
+  @C27_bodyXYZ_cs_rotation,
+  @C27_bodyXYZ_angles_agree,
+  @C27_bodyXYZ_rotation,
+  @C27_bodyXY_rotation).
+Print Assumptions C27_all.
